@@ -252,3 +252,39 @@ Definition list_fields (raw : string) : list string :=
   filter (fun f => negb (is_empty f)) (map strip (tl (split_on COMMA (before_dd raw)))).
 Fixpoint fields_eqb (a b : list string) : bool :=
   match a, b with [], [] => true | x :: a', y :: b' => US.eqb x y && fields_eqb a' b' | _, _ => false end.
+
+(* ================= a caching client in front of the reader (GeophiresXClient._cache) =================
+   get_geophires_result: cache_key = hash(input_params); hit -> the stored result, miss -> run and store.
+   [serve] answers a history of requests; [key] is the cache key of a request, [run] what a fresh run returns. *)
+Section Cache.
+  Variables Req Key Res : Type.
+  Variable key : Req -> Key.
+  Variable keq : Key -> Key -> bool.
+  Variable run : Req -> Res.
+  Fixpoint cache_lookup (k : Key) (c : list (Key * Res)) : option Res :=
+    match c with
+    | [] => None
+    | (k', x) :: r => if keq k k' then Some x else cache_lookup k r
+    end.
+  Fixpoint serve (c : list (Key * Res)) (rs : list Req) : list Res :=
+    match rs with
+    | [] => []
+    | r :: t => match cache_lookup (key r) c with
+                | Some x => x :: serve c t
+                | None => let x := run r in x :: serve ((key r, x) :: c) t
+                end
+    end.
+End Cache.
+
+(* the real key: GeophiresInputParameters.__hash__ = hash(file path); requests are file paths, [fs] the files *)
+Definition key_path (p : string) : string := p.
+(* an order-insensitive alternative (NOT the code): the set of stripped non-blank lines of the file *)
+Definition key_lineset (t : string) : list string :=
+  filter (fun l => negb (is_empty l)) (map strip (readlines (universal t))).
+Fixpoint mem_line (x : string) (l : list string) : bool := match l with [] => false | y :: r => US.eqb x y || mem_line x r end.
+Definition lineset_eqb (a b : list string) : bool := forallb (fun x => mem_line x b) a && forallb (fun x => mem_line x a) b.
+(* index of a path among the distinct files of a history: stands for "the result of that file" in the kernel check *)
+Fixpoint index_of (p : string) (l : list string) (i : N) : N :=
+  match l with [] => i | q :: r => if US.eqb p q then i else index_of p r (i + 1) end.
+Definition cache_check (paths : list string) (observed : list N) : bool :=
+  nlist_eqb (serve string string N key_path US.eqb (fun p => index_of p paths 0) [] paths) observed.
